@@ -1,5 +1,5 @@
 import Bifrost.Model.Signaling
-import Bifrost.Lemmas.SigSess
+import Bifrost.Lemmas.SigSessObs
 /-!
 C22 — Every session re-open is announced before stale messages are dropped.
 Relay server model `Bifrost.Sig` (code as fixed by "fix: signaling session did not announce …"
@@ -15,7 +15,9 @@ that has just attached — either has its write loop awake (it will run), or sti
 responses to transmit, or has already announced exactly the current state (`Opened epoch` if
 the partner is attached, `Closed`/nothing otherwise) and has no relayed message or ack pending. -/
 theorem wake_invariant (s : State) (h : Reachable s) : ∀ c ∈ s.scalls, wakeOk s c = true := by
-  sorry
+  intro c hc
+  obtain ⟨t, ht, hci⟩ := SigSess.reachable_call h hc
+  exact SigSess.wakeOk_of ht hci.wake
 
 /-- The write loop announces by VALUE: an iteration of a call that is attached, whose announced
 state differs from the current one, puts `Opened epoch` / `Closed` FIRST in what it sends and
@@ -26,7 +28,7 @@ theorem loop_announces (s : State) (c : SCall) (t : Sess) (ours : Att)
     (hne : c.announced ≠ c.cur s) (hempty : c.outbox = []) :
     ∃ c', getSCall (sLoop s c.id) c.id = some c' ∧ c'.announced = c.cur s ∧
       c'.outbox.head? = some (match c.cur s with | some e => Resp.opened e | none => Resp.closed) := by
-  sorry
+  exact SigSess.loop_announces' hc ht ho hcall hne hempty
 
 /-- Consequence: whenever the relay drops a request as stale (its epoch is older than the
 session's), the peer that sent it has been, is being, or is about to be told the newer state:
@@ -34,24 +36,31 @@ its call is awake, has the announcement queued, or has announced the current sta
 theorem no_silent_stale_drop (s : State) (h : Reachable s) (c : SCall) (hc : c ∈ s.scalls)
     (hrun : c.ended = false ∧ c.failing = false) :
     c.isAwake s = true ∨ c.outbox ≠ [] ∨ c.announced = c.cur s := by
-  sorry
+  obtain ⟨t, ht, hci⟩ := SigSess.reachable_call h hc
+  exact SigSess.stale_of ht hci.wake hrun.1 hrun.2
 
 /-- No message submitted in one epoch is delivered in a later one: a message stored for, or
 about to be transmitted to, a call was accepted from the partner in exactly the epoch the
 receiver has been told. -/
 theorem no_cross_epoch_delivery (s : State) (h : Reachable s) :
     ∀ c ∈ s.scalls, forwardOk s c = true ∧ storedOk s c = true := by
-  sorry
+  intro c hc
+  obtain ⟨t, ht, hci⟩ := SigSess.reachable_call h hc
+  exact ⟨SigSess.forwardOk_of hci.fwd, SigSess.storedOk_of ht hci.stored⟩
 
 /-- Stale requests are dropped without any effect. -/
 theorem stale_dropped (s : State) (c : SCall) (t : Sess) (epoch : Nat) (m : Msg) (v : Bool) (g : Nat)
     (hc : getSCall s c.id = some c) (ht : getSess s c.sess = some t)
     (hadm : admit v g c.src = true) (hstale : epoch < t.seqno) :
     sSend s c.id epoch m v g = s := by
-  sorry
+  have h1 : ¬ t.seqno < epoch := by omega
+  have h2 : t.seqno ≠ epoch := by omega
+  simp [sSend, hc, hadm, ht, h1, h2]
 
 /-- Non-vacuity: a reachable state where B re-attached (usurped) while A stayed: A is awake. -/
 example : ∃ s, Reachable s ∧ ∃ c ∈ s.scalls, c.id = 1 ∧ c.isAwake s = true ∧ c.announced ≠ c.cur s := by
-  sorry
+  refine ⟨run [.init 1 1 2, .init 2 2 1, .loop 1, .send_ 1 (.opened 2), .init 3 2 1],
+    SigSess.reachable_run _ (by decide), ?_⟩
+  decide
 
 end Bifrost.Props.C22
